@@ -325,7 +325,7 @@ pub fn execute_c(case: &CaseC, stats: &mut WireStats, digest: &mut u64) -> Optio
   // transferred). A reader may report that or try again itself; the caller tries again; either way
   // every record must come out exactly once
   let ch = case.hash();
-  if ch % 5 == 0 { crate::sysseam::fail_read_call_once(p.kbd_r, ((ch >> 8) % 14) as u32, libc::EINTR); stats.read_eintr += 1; }
+  if ch % 5 == 0 { crate::sysseam::watch_reads(p.kbd_r); crate::sysseam::fail_read_call_once(p.kbd_r, ((ch >> 8) % 14) as u32, libc::EINTR); stats.read_eintr += 1; }
   let mut eintr_seen = 0u64;
   let mut read_all = |reader: &mut DevInputReader| -> Result<Vec<Event>, String> {
     let mut got = vec![];
